@@ -398,6 +398,7 @@ class CallMixin:
                 ps.assume(ps.heap.sel("$alloc", res_p))
                 envp = SpecEnv(self.eng, names, ps.heap, ps.heap.copy(), result=res_p, fx=self)
                 envp.params = set(names)
+                envp.callsite = True
                 for p in c.post:
                     ps.assume(envp.formula(p))
                 if c.xpost is not None:
@@ -407,6 +408,7 @@ class CallMixin:
                     xs.assume(xs.heap.sel("$alloc", exc))
                     envx = SpecEnv(self.eng, names, xs.heap, xs.heap.copy(), exc=exc, fx=self)
                     envx.params = set(names)
+                    envx.callsite = True
                     dead = False
                     for p in c.xpost:
                         fml = z3.simplify(envx.formula(p))
@@ -468,6 +470,7 @@ class CallMixin:
             xs.assume(xs.heap.sel("$alloc", exc))
             envx = SpecEnv(self.eng, names, xs.heap, old, exc=exc, fx=self)
             envx.params = set(names)
+            envx.callsite = True
             dead = False
             for p in c.xpost:
                 fml = z3.simplify(envx.formula(p))
@@ -492,6 +495,7 @@ class CallMixin:
             st.assume(ea.formula(r))
         envn = SpecEnv(self.eng, names, st.heap, old, result=res, fx=self)
         envn.params = set(names)
+        envn.callsite = True
         for p in c.post:
             st.assume(envn.formula(p))
         if c.raw_post:
